@@ -321,4 +321,8 @@ def run(chk):
         from . import c07
         return True, "see C07.R5 (flush reaches every signal)", ["C07.R5"]
     common.arg_agreement_rule(chk, P, "C12", [("emit_otlp", "src/client.rs"), ("emit_otlp", "src/client/http.rs")], 10)
+    # a failed request is sent again only if the channel's retry loop hands the remainder back: the retry machinery of the channel is part of this property's mechanism
+    from . import batcher
+    batcher.bounded_retry(chk, P, "C12.batcher")
+    batcher.retry_remainder(chk, P, "C12.batcher")
     return chk
